@@ -15,6 +15,7 @@ PLAN = {
     "C02": dict(
         quick=[("tree4", dict(cap=2500))],
         thorough=["tree4", "tree5", ("tree6", dict(cap=20000, timeout=2400)), ("sim_tree", dict(cap=6000))],
+        vacuity=[("tree4", [], "skip-second-copy")],
     ),
     "C03": dict(
         quick=[("lit_finish_exit_c", dict(shuffle=8)), ("lit_foreign_finish_c", dict(cap=1000, shuffle=6)), ("lit_child_other_c", dict(cap=1000, shuffle=6)), ("par4_c", dict(shuffle=4)),
@@ -30,12 +31,13 @@ PLAN = {
     "C05": dict(
         quick=[("smp4", dict(cap=1500)), ("smp_mixed", dict(cap=2500))],
         thorough=["smp4", "smp_mixed", ("smp5", dict(cap=20000, timeout=2400))],
+        vacuity=[("smp_mixed", [], "mark-all-sampled")],
     ),
     "C06": dict(
         quick=[("att4", dict(cap=1500)), ("att4_c", dict(cap=800)), ("lit_attach_other", dict(cap=800)), ("twin4", dict(cap=600)),
                ("stress:att4", dict(rounds=200, threads=6))],
         thorough=["att4", "att5", "att4_c", "lit_attach_other", "twin4", ("sim_att", dict(cap=6000))],
-        vacuity=[("cancel4_d", ["FixCancelDefault"])],
+        vacuity=[("att4", [], "drain-danglings")],
     ),
     "C07": dict(
         quick=["hostile4", ("notready4", dict(cap=600)), ("over5_d", dict(cap=500)), "extra:teardown", "extra:teardown_c", "extra:teardown_k1",
@@ -60,15 +62,17 @@ PLAN = {
     "C10": dict(
         quick=[("scope5", dict(cap=2000)), ("scope_q1", dict(cap=3000)), ("scope_qfull", dict(cap=800))],
         thorough=["scope5", ("scope6", dict(cap=20000)), "scope_q1", "scope_qfull"],
+        vacuity=[("scope5", [], "no-restore")],
     ),
     "C11": dict(
         quick=[("ctx4", dict(cap=2500)), ("smp_mixed", dict(cap=1500))],
         thorough=["ctx4", "smp_mixed", ("ctx5", dict(cap=20000, timeout=2400))],
-        vacuity=[("ctx4", ["FixEmptyToken"])],
+        vacuity=[("ctx4", [], "ctx-last")],
     ),
     "C17": dict(
-        quick=[("lc5", dict(cap=1500)), ("lc_open", dict(cap=1000)), ("scope_open", dict(cap=3000)), ("torec5", dict(cap=2000))],
-        thorough=["lc5", "lc_open", "scope_open", "torec5", ("lc6", dict(cap=20000, timeout=2400))],
+        quick=[("lc5", dict(cap=1500)), ("lc_open", dict(cap=1000)), ("scope_open", dict(cap=3000)), ("torec5", dict(cap=2000)), ("lc_multi_q", dict(cap=1500))],
+        thorough=["lc5", "lc_open", "scope_open", "torec5", "lc_multi_q", ("lc_multi", dict(cap=20000, timeout=1200)), ("lc6", dict(cap=20000, timeout=2400))],
+        vacuity=[("lc_multi_q", [], "push-once")],
     ),
 }
 PLAN["C18"] = dict(
@@ -89,6 +93,7 @@ PLAN["C14"] = dict(
 PLAN["C16"] = dict(
     quick=[("notready4", dict(cap=1200)), ("disabled4", dict(cap=1200)), ("hostile4", dict(cap=800))],
     thorough=["notready4", "disabled4", "hostile4", "hostile5"],
+    vacuity=[("notready4", [], "root-ignores-ready")],
     needs_off=True,
 )
 from side import SIDE
